@@ -214,7 +214,7 @@ pub fn run(r: &mut Runner) -> &'static str {
               WriteToHeader type by value and by reference, write_payloads (native homogeneous and mixed batches), write_tlv} then build; value sizes {0..48, 255-257, 30000-65535, 65536+}. \
               oracle: history model R-BLD - bytes 14..16 of a successful build equal the explicit length in force, else the number of bytes after the fixed part; a single TLV value / byte \
               slice above 65535 must be refused; no explicit length and more than 65535 bytes -> build must fail. non-trivial = set_length after the first write, set_length(None) after Some, \
-              repeated set_length, total within 16 bytes of 65535 or above it, or an oversize value; distinct by SipHash of the history"
+              repeated set_length, total within 16 bytes of 65535 or above it, or an oversize value; distinct by SipHash of the history Added later: phased histories around 65535 bytes, explicit lengths related to the history (true size, size at the call, repeated value), batches through iterators with inexact size hints, 16 MiB sections."
         .into();
     r.assumptions.push("outcomes the statement leaves open (writes past a full-size header, build failing under an explicit length) follow the implementation".into());
     let n = r.n(200_000, 5_000_000);
